@@ -1159,7 +1159,10 @@ def evalReverse (env : Env) : Nat → InXOpts → St → Res Bool × St
        | (.oom, st') => (.oom, st'))
 termination_by structural fuel => fuel
 
-/-- the class a dtml-raise raises: by name (unknown names give RuntimeError), or by expression -/
+/-- the class a dtml-raise raises: by name (unknown names give RuntimeError), or by expression (`cls` is then the tag's
+`__name__`: the text of the expression).  An expression that raises falls back to the class of that name, else to
+InvalidErrorTypeExpression; a value that is not an exception class reaches `upgradeException`, whose `t.__name__` fails:
+AttributeError (CPython's message text for it is outside the model, as for all its own errors). -/
 def raiseClass (env : Env) : Nat → Text → Option Expr → St → Option Text × St
   | 0, _, _, st => (none, st)              -- out of fuel
   | fuel + 1, cls, clsExpr, st =>
@@ -1168,9 +1171,9 @@ def raiseClass (env : Env) : Nat → Text → Option Expr → St → Option Text
     | some e =>
       (match evalExpr env fuel e st with
        | (.ok (.exc c _), st') => (some c, st')
-       | (.ok (.str c), st') => (some c, st')
+       | (.ok _, st') => (some "AttributeError".toList, st')
        | (.oom, st') => (none, st')
-       | (_, st') => (some "InvalidErrorTypeExpression".toList, st'))
+       | (_, st') => (some (if (env.classes.lookup cls).isSome then cls else "InvalidErrorTypeExpression".toList), st'))
 termination_by structural fuel => fuel
 
 def renderBlk (env : Env) : Nat → Blk → St → Res (List Piece) × St
